@@ -49,12 +49,19 @@ pub fn session_case(rng: &mut Rng, out: &mut Out, cfg: &SessionCfg, prop: &str) 
     let mut viol: Vec<String> = vec![];
     let mut history: Vec<u32> = vec![];
     let mut nontrivial = false;
+    let mut limit_hit = false;
     let res = catch_unwind(AssertUnwindSafe(|| {
         for _step in 0..cfg.steps {
             // sometimes ask for the forced bytes first: the mask is then computed relative to a pending
             // byte prefix (the text the grammar forces next)
             if rng.chance(1, 4) {
                 let (r, _) = run_op(&mut m, &Op::FfBytes);
+                // a grammar that forces text without end stops at the step item limit: item
+                // accounting is not modelled, such sessions are skipped
+                if r.to_string().len() > 20000 || is_resource_limit(&m) {
+                    limit_hit = true;
+                    break;
+                }
                 ops.push(Op::FfBytes);
                 results.push(r);
             }
@@ -169,6 +176,10 @@ pub fn session_case(rng: &mut Rng, out: &mut Out, cfg: &SessionCfg, prop: &str) 
     }));
     if res.is_err() {
         viol.push("panic escaped from the Matcher API".to_string());
+    }
+    if limit_hit || is_resource_limit(&m) {
+        out.count("resource_limit_sessions", 1);
+        return;
     }
     let mut inp = vec![g.to_sx()];
     inp.extend(vocab_sx2(&ws, eos, extra_eos));
